@@ -104,6 +104,8 @@ def run(ctx):
                 combos = [("TORUS", 1, None, (True,) * D), ("SAME", 1, None, (False,) * D)]
                 if (si == 0 and D == 2) or th:
                     combos += [(None, 2, None, (True, False, True)[:D]), ([[1, 1]] * D, 1, [2] * D, (True,) * D)]
+                    # image dilation (even and odd) with the string / default paddings and with integer padding
+                    combos += [("SAME", 1, [2] * D, (False,) * D), (None, 1, [2] * D, (False,) * D), ("SAME", 2, [3] * D, (True,) * D), (1, 1, [2] * D, (True, False, True)[:D]), ("VALID", 1, [2] * D, (False,) * D)]
                 if D == 3 and not th:
                     combos = combos[:1] + [(None, 1, None, (True, False, True))]
                 for padding, rd, ld, flags in combos:
